@@ -133,7 +133,9 @@ class MTree:
         if tag == "idx":
             if 0 <= v < len(K) or (v == 0 and not K):
                 return v
-            return Unspec("index outside 0..len-1")
+            if -len(K) <= v < 0:
+                return len(K) + v  # "the existing child with this index", counted from the end as everywhere in Python
+            return Unspec("index outside -len..len-1")
         if tag == "node":
             for i, c in enumerate(K):
                 if c is v:
@@ -233,7 +235,19 @@ class MTree:
             return self._refuse_uniq(K, before)
         oldp = self.parent_of(n)
         if oldp is target and before is not None and before is not False and before is not True and before[0] == "idx":
-            return Unspec("index for a move within the same parent")
+            # "before the existing child with this index": the documentation does not say whether the index counts the
+            # moved node.  The effect is specified where both readings agree, unspecified where they differ.
+            L = self.kids(target)
+            v = before[1]
+            posA = self._position(K, before)
+            if not isinstance(posA, int) or not (-len(L) <= v < len(L)):
+                return Unspec("index for a move within the same parent")
+            c = L[v]
+            if c is n:
+                return Unspec("index for a move within the same parent names the moved node itself")
+            posB = next(i for i, x in enumerate(K) if x is c)
+            if posA != posB:
+                return Unspec("index for a move within the same parent: the two readings differ")
         if before is not None and before is not False and before is not True and before[0] == "node" and before[1] is n:
             return Refuse(POS, "before is the moved node itself")
         pos = self._position(K, before)
